@@ -732,7 +732,7 @@ def mols(tier="quick", families=("er", "skeleton", "wlhard", "chem", "deep", "co
         "skeleton": [fam_skeleton(big=not q), fam_skeleton(big=not q)],
         "wlhard": [fam_wlhard(216 if q else 432)],
         "chem": [fam_chem(12 if q else 30), fam_chem(6)],
-        "deep": [fam_deep(120 if q else 600), fam_slowwl()],
+        "deep": [fam_deep(300 if q else 900), fam_slowwl()],
         "corpus": [fam_corpus(120 if q else 400)],
         "multi": [fam_multi(40 if q else 120)],
         "bigcheap": [fam_bigcheap()],
